@@ -17,20 +17,32 @@ use crate::arg_u64;
 const RUNLOG_N: usize = 4096;
 #[allow(clippy::declare_interior_mutable_const)]
 const A0: AtomicUsize = AtomicUsize::new(0);
-static RUNLOG: [AtomicUsize; RUNLOG_N] = [A0; RUNLOG_N];
-static RUNLOG_LEN: AtomicUsize = AtomicUsize::new(0);
+#[allow(clippy::declare_interior_mutable_const)]
+const ROW: [AtomicUsize; RUNLOG_N] = [A0; RUNLOG_N];
+static RUNLOGS: [[AtomicUsize; RUNLOG_N]; 4] = [ROW; 4];
+static RUNLOG_LENS: [AtomicUsize; 4] = [A0; 4];
+thread_local! {
+    static OWNER: std::cell::Cell<usize> = const { std::cell::Cell::new(0) };
+}
 static WRONG_SIGNO: AtomicUsize = AtomicUsize::new(0);
 
+/// Actions log into the run list of the thread they run on (deliveries are raised on the owner thread).
 fn ran(tag: usize) {
-    let i = RUNLOG_LEN.fetch_add(1, Ordering::SeqCst);
+    let o = OWNER.with(|o| o.get());
+    let i = RUNLOG_LENS[o].fetch_add(1, Ordering::SeqCst);
     if i < RUNLOG_N {
-        RUNLOG[i].store(tag, Ordering::SeqCst);
+        RUNLOGS[o][i].store(tag, Ordering::SeqCst);
     }
 }
 
 fn take_runlog() -> Vec<usize> {
-    let n = RUNLOG_LEN.swap(0, Ordering::SeqCst).min(RUNLOG_N);
-    (0..n).map(|i| RUNLOG[i].load(Ordering::SeqCst)).collect()
+    let o = OWNER.with(|o| o.get());
+    let n = RUNLOG_LENS[o].swap(0, Ordering::SeqCst).min(RUNLOG_N);
+    (0..n).map(|i| RUNLOGS[o][i].load(Ordering::SeqCst)).collect()
+}
+
+fn runlog_len() -> usize {
+    RUNLOG_LENS[OWNER.with(|o| o.get())].load(Ordering::SeqCst)
 }
 
 fn catchable() -> Vec<c_int> {
@@ -205,6 +217,7 @@ fn child(seed: u64, ops: u64, fd: i32) -> i32 {
         let pth = std::sync::Arc::new(AtomicUsize::new(0));
         let (k2, p2, rfd) = (ktid.clone(), pth.clone(), p[0]);
         let j = std::thread::spawn(move || {
+            OWNER.with(|o| o.set(1));
             p2.store(unsafe { libc::pthread_self() } as usize, Ordering::SeqCst);
             k2.store(crate::sig::gettid(), Ordering::SeqCst);
             crate::pool::victim_read(rfd)
@@ -224,7 +237,7 @@ fn child(seed: u64, ops: u64, fd: i32) -> i32 {
         let want = model.get(&rsig).map(|v| v.len()).unwrap_or(0);
         crate::sig::kill_thread(pth.load(Ordering::SeqCst) as libc::pthread_t, rsig);
         let t1 = crate::now_ms();
-        while RUNLOG_LEN.load(Ordering::SeqCst) < want && crate::now_ms() - t1 < 5000 {
+        while RUNLOG_LENS[1].load(Ordering::SeqCst) + runlog_len() < want && crate::now_ms() - t1 < 5000 {
             std::thread::yield_now();
         }
         std::thread::sleep(std::time::Duration::from_millis(5));
@@ -239,8 +252,95 @@ fn child(seed: u64, ops: u64, fd: i32) -> i32 {
     0
 }
 
+/// Concurrent variant: `nthreads` owner threads, each with its own disjoint set of signals and its own model.
+/// What one thread does to its signals must never change what another thread's signals do.
+fn child_concurrent(seed: u64, ops: u64, nthreads: usize, fd: i32) -> i32 {
+    use fork::wr;
+    unsafe { libc::signal(libc::SIGBUS, libc::SIG_DFL) };
+    let all = catchable();
+    let mut joins = Vec::new();
+    for t in 0..nthreads {
+        let mine: Vec<c_int> = all.iter().cloned().filter(|s| (*s as usize) % nthreads == t).collect();
+        joins.push(std::thread::spawn(move || {
+            OWNER.with(|o| o.set(t));
+            let mut rng = Rng::new(seed ^ ((t as u64 + 1) << 32));
+            let hot: Vec<c_int> = (0..2).map(|_| *rng.pick(&mine)).collect();
+            let mut model: HashMap<c_int, Vec<(SigId, usize)>> = HashMap::new();
+            let mut ever: HashSet<SigId> = HashSet::new();
+            let mut problems: Vec<String> = Vec::new();
+            let mut next_tag = 1usize + t * 10_000_000;
+            for i in 0..ops {
+                let sig = if rng.chance(9, 10) { *rng.pick(&hot) } else { *rng.pick(&mine) };
+                let r = rng.below(100);
+                if r < 45 {
+                    let tag = next_tag;
+                    next_tag += 1;
+                    match unsafe { signal_hook_registry::register(sig, move || ran(tag)) } {
+                        Ok(id) => {
+                            if !ever.insert(id) {
+                                problems.push(format!("thread {} op {}: id handed out twice", t, i));
+                            }
+                            model.entry(sig).or_default().push((id, tag));
+                        }
+                        Err(e) => problems.push(format!("register({}) failed: {}", sig, e)),
+                    }
+                } else if r < 80 {
+                    if let Some(v) = model.get_mut(&sig) {
+                        if !v.is_empty() {
+                            let k = rng.below(v.len() as u64) as usize;
+                            let (id, _) = v.remove(k);
+                            if !signal_hook_registry::unregister(id) {
+                                problems.push(format!("thread {} op {}: unregister of a live action of its own signal {} returned false (another thread only touches other signals)", t, i, sig));
+                            }
+                        }
+                    }
+                } else if r < 85 {
+                    #[allow(deprecated)]
+                    signal_hook_registry::unregister_signal(sig);
+                    model.remove(&sig);
+                }
+                if model.contains_key(&sig) || r >= 80 {
+                    if crate::sig::disposition(sig).map(|d| d.0 > 1).unwrap_or(false) {
+                        take_runlog();
+                        unsafe { libc::raise(sig) };
+                        let got = take_runlog();
+                        let want: Vec<usize> = model.get(&sig).map(|v| v.iter().map(|x| x.1).collect()).unwrap_or_default();
+                        if got != want {
+                            problems.push(format!("thread {} op {}: delivery of its own signal {} ran {:?}, its model says {:?} (other threads only touch other signals)", t, i, sig, got, want));
+                        }
+                    }
+                }
+                if !problems.is_empty() {
+                    break;
+                }
+            }
+            problems
+        }));
+    }
+    let mut nbad = 0;
+    for j in joins {
+        match j.join() {
+            Ok(p) => {
+                for m in p.iter().take(3) {
+                    wr(fd, &format!("BAD {}\n", m));
+                    nbad += 1;
+                }
+            }
+            Err(_) => {
+                wr(fd, "BAD a model thread panicked\n");
+                nbad += 1;
+            }
+        }
+    }
+    let _ = nbad;
+    wr(fd, &format!("STATS reg={} unreg_live=0 unreg_stale=0 unreg_other=0 clear=0 deliver={} signals={} maxlen=0\n", ops * nthreads as u64 / 2, ops * nthreads as u64 / 2, all.len()));
+    wr(fd, "DONE\n");
+    0
+}
+
 pub fn main(args: &[String]) -> i32 {
     let seed = arg_u64(args, "--seed", 1);
+    let threads = arg_u64(args, "--threads", 1) as usize;
     let procs = arg_u64(args, "--procs", 8);
     let ops = arg_u64(args, "--ops", 2500);
     let t0 = crate::now_ms();
@@ -251,7 +351,7 @@ pub fn main(args: &[String]) -> i32 {
     let mut inconclusive = None;
     for p in 0..procs {
         let s = seed * 1000 + p;
-        let res = fork::probe(600_000, false, move |fd| child(s, ops, fd));
+        let res = fork::probe(600_000, false, move |fd| if threads > 1 { child_concurrent(s, ops, threads.min(4), fd) } else { child(s, ops, fd) });
         match &res.end {
             End::Exit(0) if res.out.contains("DONE") => {}
             End::Timeout => {
@@ -302,6 +402,7 @@ pub fn main(args: &[String]) -> i32 {
     let mut j = J::obj()
         .set("type", J::s("summary"))
         .set("workload", J::s("w_model"))
+        .set("mode", J::s(if threads > 1 { "concurrent-owners" } else { "sequential" }))
         .set("seed", J::u(seed))
         .set("evaluations", J::u(procs * ops))
         .set("distinct_keys", J::arr(keys.iter().map(|k| J::s(k))))
